@@ -430,7 +430,7 @@ def subs(tier: str):
     q = tier == "quick"
     if q:
         keys = ["A-full", "B-full-filters", "C-minimal"]
-        enum = _enumerated(keys, {"A-full": 2, "*": 16}, {"A-full": 5, "*": 29}, ["xorff", "xor01", "zero"])
+        enum = _enumerated(keys, {"A-full": 4, "*": 32}, {"A-full": 11, "*": 47}, ["xorff", "xor01", "zero"])
     else:
         keys = list(POOL)
         enum = _enumerated(keys, {"*": 1}, {"*": 1}, ["xorff", "xor01", "zero"])
